@@ -1,9 +1,243 @@
 import DspVerif.Driver.Proto
-/-! driver handlers for C06 (stub: no correspondence cases handled yet) -/
+import DspVerif.Model.Framing
+import DspVerif.Model.Resample
+import DspVerif.Model.Dynamics
+import DspVerif.Model.Adaptive
+import DspVerif.Model.Order
+/-! driver handlers for C06: every correspondence case is
+
+`<tag> <proc> <params…> <k> <size_1 … size_k> <N> <input: N doubles>`   (`tag` = `frame` | `frameF` | `frameR`)
+
+One processor object is built from the parameters with the MODEL's `init`; the input is cut into the `k` frames (sizes in
+input ITEMS: 1 double for real, 2 for complex samples, an `(x, d)` pair for the adaptive filters), the model's `process` is
+called once per frame through `Framing.runFrames(E)`, and the concatenated output is printed as `<N'> <doubles…>` in the
+layout of `harness/c06.cpp` (complex: re im; dynamics / AGC: out gain per sample; adaptive: y e per sample, then `coeffs()`). -/
+namespace Dsp.Driver.H06
+open Dsp.Proto Dsp.Framing
+
+/-! the transform handed to the `FftFilter` model: plain radix-2 FFT (all lengths are powers of two) -/
+def fftPow2 (sgn : Float) : Nat → Array (Cx Float) → Array (Cx Float)
+  | 0, a => a
+  | lg + 1, a =>
+    let half := 2 ^ lg
+    let e := fftPow2 sgn lg (Array.ofFn (n := half) fun i => a.getD (2 * i.val) ⟨0, 0⟩)
+    let o := fftPow2 sgn lg (Array.ofFn (n := half) fun i => a.getD (2 * i.val + 1) ⟨0, 0⟩)
+    Array.ofFn (n := 2 * half) fun k =>
+      let j := k.val % half
+      let th := 2.0 * 3.141592653589793238463 * j.toFloat / (2 * half).toFloat
+      let w : Cx Float := ⟨Float.cos th, sgn * Float.sin th⟩
+      let t := w * o.getD j ⟨0, 0⟩
+      if k.val < half then e.getD j ⟨0, 0⟩ + t else e.getD j ⟨0, 0⟩ - t
+
+def fftF (a : Array (Cx Float)) : Array (Cx Float) := fftPow2 (-1.0) (Nat.log2 a.size) a
+def ifftF (a : Array (Cx Float)) : Array (Cx Float) :=
+  (fftPow2 1.0 (Nat.log2 a.size) a).map fun z => Cx.divr z a.size.toFloat
+
+/-! input items -/
+def toCx (a : Array Float) : Array (Cx Float) :=
+  Array.ofFn (n := a.size / 2) fun i => ⟨a.getD (2 * i.val) 0, a.getD (2 * i.val + 1) 0⟩
+def ofCx (a : Array (Cx Float)) : Array Float :=
+  a.foldl (fun r z => (r.push z.re).push z.im) #[]
+/-- column `off .. off+w` of items of `2w` doubles -/
+def col (a : Array Float) (w off : Nat) : Array Float :=
+  Array.ofFn (n := a.size / (2 * w) * w) fun i => a.getD (i.val / w * (2 * w) + off + i.val % w) 0
+
+/-- `<k> <sizes…> <N> <doubles…>` → frames of `size_i * win` doubles -/
+def takeFrames (win : Nat) (toks : List String) : Option (List (Array Float)) := do
+  let (sizes, rest) ← takeInts toks
+  let (x, _) ← takeFloats rest
+  let rec cut (pos : Nat) : List Int → List (Array Float)
+    | [] => []
+    | s :: t => x.extract pos (pos + s.toNat * win) :: cut (pos + s.toNat * win) t
+  pure (cut 0 sizes)
+
+def okOut (r : Except String (Array Float)) : String :=
+  match r with
+  | .ok y => fmtFloatArr y
+  | .error _ => "ERR"
+
+/-- interleave `out gain` per sample -/
+def zip2 (a b : Array Float) : Array Float :=
+  Array.ofFn (n := 2 * a.size) fun i => if i.val % 2 = 0 then a.getD (i.val / 2) 0 else b.getD (i.val / 2) 0
+/-- `out.re out.im gain` per sample -/
+def zip3 (a : Array (Cx Float)) (g : Array Float) : Array Float :=
+  Array.ofFn (n := 3 * a.size) fun i =>
+    if i.val % 3 = 0 then (a.getD (i.val / 3) ⟨0, 0⟩).re else if i.val % 3 = 1 then (a.getD (i.val / 3) ⟨0, 0⟩).im else g.getD (i.val / 3) 0
+/-- `y e` per sample (real) -/
+def yeR (y e : Array Float) : Array Float := zip2 y e
+/-- `y.re y.im e.re e.im` per sample -/
+def yeC (y e : Array (Cx Float)) : Array Float :=
+  Array.ofFn (n := 4 * y.size) fun i =>
+    let k := i.val / 4
+    match i.val % 4 with
+    | 0 => (y.getD k ⟨0, 0⟩).re
+    | 1 => (y.getD k ⟨0, 0⟩).im
+    | 2 => (e.getD k ⟨0, 0⟩).re
+    | _ => (e.getD k ⟨0, 0⟩).im
+
+open Dsp.Fir Dsp.Resample Dsp.Dynamics Dsp.Adaptive Dsp.Order in
+def handle : List String → Option String
+  | "firR" :: rest => do
+    let (h, rest) ← takeFloats rest
+    let fr ← takeFrames 1 rest
+    some (fmtFloatArr (runFrames #[] firProcessR (firInitR h) fr).2)
+  | "firC" :: rest => do
+    let (h, rest) ← takeCxs rest
+    let fr ← takeFrames 2 rest
+    some (fmtFloatArr (runFrames #[] (fun s x => let r := firProcessC s (toCx x); (r.1, ofCx r.2)) (firInitC h) fr).2)
+  | "fftR" :: rest => do
+    let (h, rest) ← takeFloats rest
+    let fr ← takeFrames 1 rest
+    some (fmtFloatArr (runFrames #[] (fftProcessR fftF ifftF) (fftInitR fftF h) fr).2)
+  | "fftC" :: rest => do
+    let (h, rest) ← takeCxs rest
+    let fr ← takeFrames 2 rest
+    some (fmtFloatArr (runFrames #[] (fun s x => let r := fftProcessC fftF ifftF s (toCx x); (r.1, ofCx r.2)) (fftInitC fftF h) fr).2)
+  | "maR" :: n :: rest => do
+    let n ← n.toNat?
+    let fr ← takeFrames 1 rest
+    some (fmtFloatArr (runFrames #[] maProcessR (maInitR n) fr).2)
+  | "maC" :: n :: rest => do
+    let n ← n.toNat?
+    let fr ← takeFrames 2 rest
+    some (fmtFloatArr (runFrames #[] (fun s x => let r := maProcessC s (toCx x); (r.1, ofCx r.2)) (maInitC n) fr).2)
+  | "delayR" :: rest => do
+    let (b, rest) ← takeFloats rest
+    let fr ← takeFrames 1 rest
+    some (fmtFloatArr (runFrames #[] delayProcess b fr).2)
+  | "delayC" :: rest => do
+    let (b, rest) ← takeCxs rest
+    let fr ← takeFrames 2 rest
+    some (fmtFloatArr (runFrames #[] (fun s x => let r := delayProcess s (toCx x); (r.1, ofCx r.2)) b fr).2)
+  | "median" :: n :: v :: rest => do
+    let n ← parseI n
+    let v ← parseF v
+    let fr ← takeFrames 1 rest
+    match MF.init n v with
+    | .error _ => some "ERR"
+    | .ok st =>
+      let y := (runFrames [] (fun s (x : Array Float) => MF.process (avg2 : Float → Float → Float) s x.toList) st fr).2
+      some (if y.isEmpty then "0" else
+        toString y.length ++ " " ++ String.intercalate " " (y.map fun o => match o with | some v => fmtF v | none => "OOB"))
+  | "hilb" :: rest => do
+    let (h, rest) ← takeFloats rest
+    let fr ← takeFrames 1 rest
+    some (fmtFloatArr (runFrames #[] (fun s x => let r := Hilbert.process s x; (r.1, ofCx r.2)) (Hilbert.init h) fr).2)
+  | "tuner" :: fs :: f :: rest => do
+    let fs ← fs.toNat?
+    let f ← parseF f
+    let fr ← takeFrames 2 rest
+    match Tuner.init fs f with
+    | .error _ => some "ERR"
+    | .ok p => some (fmtFloatArr (runFrames #[] (fun s x => let r := p.process s (toCx x); (r.1, ofCx r.2)) 0 fr).2)
+  | kind :: l :: m :: rest =>
+    if kind == "interp" || kind == "decim" || kind == "rateconv" || kind == "resampler" then do
+      let L ← l.toNat?; let M ← m.toNat?
+      let (h, rest) ← takeFloats rest
+      let fr ← takeFrames 1 rest
+      let c : Rs Float ←
+        (if kind == "interp" then some (.int (Interp.init L h)) else if kind == "decim" then some (.dec (Decim.init M h))
+         else if kind == "rateconv" then some (.rc (RateConv.init L M h)) else some (Rs.init L M h))
+      some (okOut ((runFramesE #[] Rs.process c fr).map (·.2)))
+    else if kind == "agcr" || kind == "agcc" then do
+      let tg ← parseF l; let mg ← parseF m
+      match rest with
+      | n :: tri :: tfa :: rest => do
+        let n ← parseI n; let tri ← parseF tri; let tfa ← parseF tfa
+        match Agc.init tg mg n tri tfa with
+        | .error _ => some "ERR"
+        | .ok (p, s) =>
+          if kind == "agcr" then do
+            let fr ← takeFrames 1 rest
+            some (fmtFloatArr (runFrames #[] (fun s x => let r := Agc.processR p s x; (r.1, zip2 r.2.2 r.2.1)) s fr).2)
+          else do
+            let fr ← takeFrames 2 rest
+            some (fmtFloatArr (runFrames #[] (fun s x => let r := Agc.processC p s (toCx x); (r.1, zip3 r.2.2 r.2.1)) s fr).2)
+      | _ => none
+    else if kind == "comp" then do
+      let fs ← l.toNat?; let t ← parseF m
+      match rest with
+      | ratio :: w :: ta :: tr :: rest => do
+        let ratio ← parseI ratio; let w ← parseF w; let ta ← parseF ta; let tr ← parseF tr
+        let fr ← takeFrames 1 rest
+        match Comp.init fs t ratio w ta tr with
+        | .error _ => some "ERR"
+        | .ok p => some (fmtFloatArr (runFrames #[] (fun g x => let r := processWith (Comp.step p) g x; (r.1, zip2 r.2.2 r.2.1)) (0.0 : Float) fr).2)
+      | _ => none
+    else if kind == "lim" then do
+      let fs ← l.toNat?; let t ← parseF m
+      match rest with
+      | w :: ta :: tr :: rest => do
+        let w ← parseF w; let ta ← parseF ta; let tr ← parseF tr
+        let fr ← takeFrames 1 rest
+        match Lim.init fs t w ta tr with
+        | .error _ => some "ERR"
+        | .ok p => some (fmtFloatArr (runFrames #[] (fun g x => let r := processWith (Lim.step p) g x; (r.1, zip2 r.2.2 r.2.1)) (0.0 : Float) fr).2)
+      | _ => none
+    else if kind == "gate" then do
+      let fs ← l.toNat?; let t ← parseF m
+      match rest with
+      | ta :: tr :: th :: rest => do
+        let ta ← parseF ta; let tr ← parseF tr; let th ← parseF th
+        let fr ← takeFrames 1 rest
+        match Gate.init fs t ta tr th with
+        | .error _ => some "ERR"
+        | .ok p => some (fmtFloatArr (runFrames #[] (fun s x => let r := Gate.process p s x; (r.1, zip2 r.2.2 r.2.1)) (Gate.init0 : GateState Float) fr).2)
+      | _ => none
+    else if kind == "lms" then do
+      -- lms <cx> <nlms> <len> <mu> <leak>
+      match rest with
+      | len :: mu :: leak :: rest => do
+        let len ← len.toNat?; let mu ← parseF mu; let leak ← parseF leak
+        let p : LmsP Float := ⟨len, mu, m == "1", leak⟩
+        if l == "1" then do
+          let fr ← takeFrames 4 rest
+          match runFramesE (#[] : Array Float)
+              (fun (s : LmsState (Cx Float)) x => (lmsProcess p s (toCx (col x 2 0)) (toCx (col x 2 2))).map fun r => (r.1, yeC r.2.1 r.2.2))
+              (lmsInit p) fr with
+          | .error _ => some "ERR"
+          | .ok (s, y) => some (fmtFloatArr (y ++ ofCx s.coeffs))
+        else do
+          let fr ← takeFrames 2 rest
+          match runFramesE (#[] : Array Float)
+              (fun (s : LmsState Float) x => (lmsProcess p s (col x 1 0) (col x 1 1)).map fun r => (r.1, yeR r.2.1 r.2.2))
+              (lmsInit p) fr with
+          | .error _ => some "ERR"
+          | .ok (s, y) => some (fmtFloatArr (y ++ s.coeffs))
+      | _ => none
+    else if kind == "rls" then do
+      -- rls <cx> <len> <lam> <dl>
+      let len ← m.toNat?
+      match rest with
+      | lam :: dl :: rest => do
+        let lam ← parseF lam; let dl ← parseF dl
+        let P : RlsP Float := ⟨len, lam⟩
+        if l == "1" then do
+          let fr ← takeFrames 4 rest
+          match runFramesE (#[] : Array Float)
+              (fun (s : RlsState (Cx Float)) x => (rlsProcess P s (toCx (col x 2 0)) (toCx (col x 2 2))).map fun r => (r.1, yeC r.2.1 r.2.2))
+              (rlsInit P dl) fr with
+          | .error _ => some "ERR"
+          | .ok (s, y) => some (fmtFloatArr (y ++ ofCx s.coeffs))
+        else do
+          let fr ← takeFrames 2 rest
+          match runFramesE (#[] : Array Float)
+              (fun (s : RlsState Float) x => (rlsProcess P s (col x 1 0) (col x 1 1)).map fun r => (r.1, yeR r.2.1 r.2.2))
+              (rlsInit P dl) fr with
+          | .error _ => some "ERR"
+          | .ok (s, y) => some (fmtFloatArr (y ++ s.coeffs))
+      | _ => none
+    else none
+  | _ => none
+
+end Dsp.Driver.H06
+
 namespace Dsp.Driver
-open Dsp.Proto
 
 def h06 : List String → Option String
+  | "frame" :: rest => H06.handle rest
+  | "frameF" :: rest => H06.handle rest
+  | "frameR" :: rest => H06.handle rest
   | _ => none
 
 end Dsp.Driver
